@@ -67,3 +67,24 @@ probe("periodic pointer to a removed surface", ["1 0 1 -2 3"], ["1 PZ 0", "2 PZ 
       "no written card refers to a removed surface")
 probe("chain", ["1 0 1 -2 3"], ["1 PZ 0", "2 PZ 0.6", "3 PZ 1.2"], [], 1.0,
       "every removed surface maps to a survivor within tolerance")
+
+
+def probe_deleted_link():
+    """a periodic link deleted through the API must not be written (else it dangles once the partner is merged)"""
+    d = tempfile.mkdtemp()
+    try:
+        path = os.path.join(d, "in.imcnp")
+        with open(path, "w") as fh:
+            fh.write("C18 probe\n20 0 28\n\n28 -9 CZ 1\n9 CZ 1\n\n")
+        p = montepy.read_input(path)
+        del p.surfaces[28].periodic_surface
+        p.remove_duplicate_surfaces(1e-5)
+        out = os.path.join(d, "out.imcnp")
+        p.write_to_file(out)
+        with open(out) as fh:
+            print("--- deleted periodic link, then dedupe\n    expected: '28 CZ 1' only\n    written surfaces:", fh.read().split("\n\n")[1].splitlines())
+    finally:
+        shutil.rmtree(d)
+
+
+probe_deleted_link()
